@@ -90,8 +90,8 @@ pub proof fn lemma_budget_prefix(v2: Map<usize, Block>, v: Map<usize, Block>, w:
         n0 + s.len() <= usize::MAX + 1, j <= s.len(),
         forall|k: usize| #![trigger v2.contains_key(k)] k < n0 ==> (v2.contains_key(k) == v.contains_key(k)),
         forall|k: usize| #![trigger v2[k]] k < n0 && v2.contains_key(k) ==> v2[k].next_instruction_index == v[k].next_instruction_index,
-        forall|i: int| 0 <= i < s.len() ==> v2.contains_key((n0 + i) as usize)
-            && (#[trigger] v2[(n0 + i) as usize]).next_instruction_index == w[s[i]].next_instruction_index,
+        forall|x: usize| #![trigger v2.contains_key(x)] #![trigger v2[x]] n0 <= x < n0 + s.len() ==> v2.contains_key(x)
+            && v2[x].next_instruction_index == w[s[x - n0]].next_instruction_index,
     ensures budget_upto(v2, n0 + j) == budget_upto(v, n0) + seq_budget(w, s.take(j as int)),
     decreases j,
 {
@@ -104,9 +104,8 @@ pub proof fn lemma_budget_prefix(v2: Map<usize, Block>, v: Map<usize, Block>, w:
         let t = s.take(j as int);
         assert(t.drop_last() =~= s.take(j - 1));
         assert(t.last() == s[j - 1]);
-        let i = j - 1;
-        assert(v2.contains_key((n0 + i) as usize) && v2[(n0 + i) as usize].next_instruction_index == w[s[i]].next_instruction_index);
-        assert((n0 + j - 1) as usize == (n0 + i) as usize);
+        let x = (n0 + j - 1) as usize;
+        assert(v2.contains_key(x) && v2[x].next_instruction_index == w[s[x - n0]].next_instruction_index);
     }
 }
 
@@ -147,9 +146,8 @@ pub proof fn lemma_imported_budget(cur: ControlFlowGraph, o: ControlFlowGraph, o
     lemma_seq_budget_perm(w, other.next_index as nat, s);
     // the imported copies carry the same counters
     let v2 = cur.graph.vertices@;
-    assert forall|i: int| 0 <= i < s.len() implies v2.contains_key((n0 + i) as usize)
-        && (#[trigger] v2[(n0 + i) as usize]).next_instruction_index == w[s[i]].next_instruction_index by {
-        let x = (n0 + i) as usize;
+    assert forall|x: usize| #![trigger v2.contains_key(x)] #![trigger v2[x]] n0 <= x < n0 + s.len() implies v2.contains_key(x)
+        && v2[x].next_instruction_index == w[s[x - n0]].next_instruction_index by {
         assert(minv.contains_key(x));
         let k = minv[x];
         assert(m.contains_key(k) && m[k] == x);
@@ -162,4 +160,15 @@ pub proof fn lemma_imported_budget(cur: ControlFlowGraph, o: ControlFlowGraph, o
     }
     lemma_budget_prefix(v2, o.graph.vertices@, w, n0, s, cnt);
     assert(s.take(cnt as int) =~= s);
+}
+
+/// a finite map with a key is not empty
+pub proof fn lemma_map_nonempty(m: Map<usize, Block>, k: usize)
+    requires m.dom().finite(), m.contains_key(k),
+    ensures m.len() > 0,
+{
+    let s = Set::<usize>::empty().insert(k);
+    assert(s.subset_of(m.dom()));
+    vstd::set_lib::lemma_len_subset(s, m.dom());
+    assert(s.len() == 1);
 }
